@@ -47,6 +47,7 @@ type storeRun struct {
 	t        *traceWriter
 	rng      *rand.Rand
 	root     string
+	hist     int
 	dir      string
 	st       *comet.PersistentHybridIndex
 	memcap   int
@@ -249,6 +250,63 @@ func (r *storeRun) config(dir string) *comet.StorageConfig {
 	return cfg
 }
 
+// bulk: one large segment (thousands of documents in one memtable), written by Flush + Close and read back by a fresh session.
+// The hook handler is off: this is judged on its own ("bulk" event), not stepped against Store.tla.
+func (r *storeRun) bulk(n int) {
+	comet.VerifSetHandler(nil)
+	defer comet.VerifSetHandler(r.handler)
+	dir := filepath.Join(r.root, "bulk")
+	os.RemoveAll(dir)
+	mk := func() *comet.StorageConfig {
+		cfg := r.config(dir)
+		cfg.MemtableSizeLimit = 1 << 40
+		return cfg
+	}
+	r.emit("reset", E{"memcap": r.memcap, "compactn": r.compactn})
+	acked, foundV, foundT := 0, -1, -1
+	st, err := comet.OpenPersistentHybridIndex(mk())
+	ok := err == nil
+	if ok {
+		for i := 1; i <= n; i++ {
+			var vec []float32
+			var text string
+			var meta map[string]any
+			if r.cv {
+				vec = []float32{float32(i % 97), float32(i % 89)}
+			}
+			if r.ct {
+				text = fmt.Sprintf("aa w%d", i%7)
+			}
+			if r.cm {
+				meta = map[string]any{"c": "x"}
+			}
+			if st.AddWithID(uint32(i), vec, text, meta) == nil {
+				acked++
+			}
+		}
+		ok = st.Flush() == nil && st.Close() == nil
+	}
+	if ok {
+		st2, err := comet.OpenPersistentHybridIndex(mk())
+		ok = err == nil
+		if ok {
+			if r.cv {
+				if r.vecKind == "ivf" {
+					st2.Train([][]float32{{0, 0}, {50, 50}, {90, 10}, {10, 80}})
+				}
+				rs, err := st2.NewSearch().WithVector([]float32{0, 0}).WithK(n + 10).WithNProbes(2).Execute()
+				ok, foundV = ok && err == nil, len(rs)
+			}
+			if r.ct {
+				rs, err := st2.NewSearch().WithText("aa").WithK(n + 10).Execute()
+				ok, foundT = ok && err == nil, len(rs)
+			}
+			st2.Close()
+		}
+	}
+	r.emit("bulk", E{"n": n, "acked": acked, "ok": ok, "foundV": foundV, "foundT": foundT, "cv": r.cv, "ct": r.ct})
+}
+
 func (r *storeRun) open(dir string) (*comet.PersistentHybridIndex, bool) {
 	st, err := comet.OpenPersistentHybridIndex(r.config(dir))
 	if err != nil {
@@ -357,6 +415,29 @@ func (r *storeRun) searchFull(st *comet.PersistentHybridIndex, k int, withRef bo
 		ref = idsOf(rs)
 	}
 	r.emit("search.ret", E{"k": k, "resV": resV, "resT": resT, "resM": resM, "ok": ok, "ref": ref, "err": msg, "tm": tm && k >= 100, "hasT": r.ct, "hasM": r.cm, "cut": 0})
+}
+
+// searchVTThr: a vector + text query with a distance threshold and a large k. The threshold bounds the vector candidates only; every
+// document matches the text, so the answer is every visible document (fused scores are not distances: no threshold applies to them)
+func (r *storeRun) searchVTThr(st *comet.PersistentHybridIndex, cut int) {
+	if !r.cv || !r.ct {
+		return
+	}
+	thr := float32((cut-1)*(cut-1)) + 0.5
+	q := []string{}
+	for id := 1; id <= 9; id++ {
+		q = append(q, "w"+strconv.Itoa(id))
+	}
+	sb := st.NewSearch().WithVector([]float32{1, 0}).WithText(strings.Join(q, " ")).WithK(100).WithThreshold(thr)
+	if r.vecKind == "ivf" {
+		sb = sb.WithNProbes(2)
+	}
+	rs, err := sb.Execute()
+	msg := ""
+	if err != nil {
+		msg = err.Error()
+	}
+	r.emit("search.ret", E{"k": 100, "cut": 0, "resV": idsOf(rs), "resT": []int{}, "resM": []int{}, "ok": err == nil, "ref": []int{}, "err": msg, "tm": false, "hasT": r.ct, "hasM": r.cm})
 }
 
 // searchThr: vector-only query with a distance threshold (documents 1..cut lie within it) and k
@@ -541,7 +622,8 @@ func (r *storeRun) stepJob(end string, density float64) error {
 }
 
 func (r *storeRun) history(steps int, density float64) error {
-	r.dir = filepath.Join(r.root, "db")
+	// directory names with characters that mean something to globbing, shells and URLs
+	r.dir = filepath.Join(r.root, []string{"db", "db[v1]", "in dex*?", "a{b,c}#%"}[r.hist%4])
 	os.RemoveAll(r.dir)
 	r.emit("reset", E{"memcap": r.memcap, "compactn": r.compactn})
 	fv, _ := comet.NewFlatIndex(2, comet.L2Squared)
@@ -576,7 +658,11 @@ func (r *storeRun) history(steps int, density float64) error {
 			if r.rng.Intn(2) == 0 {
 				r.searchOn(r.st, 1+r.rng.Intn(3), true)
 			} else {
-				r.searchThr(r.st, []int{100, 2, 5}[r.rng.Intn(3)], 1+r.rng.Intn(8))
+				if r.rng.Intn(3) == 0 {
+					r.searchVTThr(r.st, 1+r.rng.Intn(8))
+				} else {
+					r.searchThr(r.st, []int{100, 2, 5}[r.rng.Intn(3)], 1+r.rng.Intn(8))
+				}
 			}
 		case x < 13:
 			r.st.VerifEvictAll()
@@ -658,6 +744,7 @@ func drvStore(args []string) error {
 	damage := cf.fs.Bool("damage", false, "damage one component file in (most) crash images")
 	comps := cf.fs.String("comps", "vtm", "configured templates")
 	vecKind := cf.fs.String("vec", "flat", "vector template: flat | ivf (trained after every open, all clusters probed) | hnsw (2M above the document count)")
+	bulk := cf.fs.Int("bulk", 0, "documents of one large segment written and read back by a fresh session (0: off)")
 	cf.fs.Parse(args)
 	t, err := newTrace(*cf.out)
 	if err != nil {
@@ -675,9 +762,13 @@ func drvStore(args []string) error {
 	comet.VerifSetHandler(r.handler)
 	defer comet.VerifSetHandler(nil)
 	for h := 0; h < *cf.count; h++ {
+		r.hist = h
 		if err := r.history(*steps, *density); err != nil {
 			return fmt.Errorf("history %d: %w", h, err)
 		}
+	}
+	if *bulk > 0 {
+		r.bulk(*bulk)
 	}
 	return nil
 }
